@@ -6,6 +6,7 @@
 package main
 
 import (
+	"context"
 	"encoding/json"
 	"errors"
 	"fmt"
@@ -13,6 +14,7 @@ import (
 	"strings"
 
 	"gorm.io/gorm"
+	"gorm.io/gorm/clause"
 	"gorm.io/gorm/logger"
 
 	"verifharness/gdb"
@@ -40,9 +42,11 @@ type Input struct {
 	//  model_dest: Model(&T{ID:pk}).Delete(&T{}) - the key comes from the Model value, not from Dest
 	//  slice:      Model(&[]T{{ID:pk},{ID:pk+1}}) + update finisher, Delete(&[]T{...}); pk 0 = every
 	//              element without key
-	Target string     `json:"target,omitempty"`
-	Atoms  []whr.Atom `json:"atoms"`
-	Steps  []Step     `json:"steps"`
+	Target string `json:"target,omitempty"`
+	// InlineLast: the last step, a Where call, is given to Delete as its inline condition instead
+	InlineLast bool       `json:"inline_last,omitempty"`
+	Atoms      []whr.Atom `json:"atoms"`
+	Steps      []Step     `json:"steps"`
 }
 
 type Obs struct {
@@ -109,8 +113,14 @@ func (e *env) run(in Input) Obs {
 	if in.Allow == "session" {
 		tx = db.Session(&gorm.Session{AllowGlobalUpdate: true})
 	}
-	for _, s := range in.Steps {
+	var inline []interface{}
+	for i, s := range in.Steps {
 		if s.Call != nil {
+			if in.InlineLast && i == len(in.Steps)-1 && s.Call.Kind == "where" && in.Finisher == "delete" && in.Target == "" {
+				q, args := s.Call.Unit.QueryArgs(db, byID)
+				inline = append([]interface{}{q}, args...)
+				continue
+			}
 			tx = s.Call.Apply(db, tx, byID)
 			continue
 		}
@@ -131,6 +141,24 @@ func (e *env) run(in Input) Obs {
 			tx = tx.Scopes(func(d *gorm.DB) *gorm.DB { return d })
 		case "empty_slice":
 			tx = tx.Where([]int64{})
+		case "offset":
+			tx = tx.Offset(1)
+		case "distinct":
+			tx = tx.Distinct()
+		case "group":
+			tx = tx.Group("age")
+		case "joins_raw":
+			tx = tx.Joins("LEFT JOIN " + table + " AS t2 ON t2.id = " + table + ".id")
+		case "returning":
+			tx = tx.Clauses(clause.Returning{})
+		case "locking":
+			tx = tx.Clauses(clause.Locking{Strength: "UPDATE"})
+		case "with_context":
+			tx = tx.WithContext(context.Background())
+		case "set":
+			tx = tx.Set("c09:key", 1)
+		case "scope_empty_where":
+			tx = tx.Scopes(func(d *gorm.DB) *gorm.DB { return d.Where("").Where(map[string]interface{}{}) })
 		case "session_pu":
 			tx = tx.Session(&gorm.Session{PropagateUnscoped: true})
 		case "session_misc":
@@ -179,7 +207,7 @@ func (e *env) run(in Input) Obs {
 		case "update_columns":
 			res = tx.Model(model()).UpdateColumns(map[string]interface{}{"mark": 7})
 		case "delete":
-			res = tx.Delete(model())
+			res = tx.Delete(model(), inline...)
 		}
 	}
 	evs := rec.Snapshot()
@@ -287,7 +315,7 @@ func term(in Input, o Obs) string {
 
 func shape(in Input) string {
 	var sb strings.Builder
-	fmt.Fprintf(&sb, "%v|%s|%s|%v|%v|%s|", in.Soft, in.Allow, in.Finisher, in.PK != 0, in.QueryFirst, in.Target)
+	fmt.Fprintf(&sb, "%v|%s|%s|%v|%v|%s|%v|", in.Soft, in.Allow, in.Finisher, in.PK != 0, in.QueryFirst, in.Target, in.InlineLast)
 	for _, s := range in.Steps {
 		if s.Call != nil {
 			sb.WriteString(whr.Shape([]whr.Call{*s.Call}))
@@ -313,6 +341,8 @@ func alphabet() []Step {
 		{Call: &whr.Call{Kind: "or", Unit: whr.Unit{Form: "group"}}},
 		{Deco: "empty_slice"}, {Deco: "order"}, {Deco: "limit"}, {Deco: "unscoped"}, {Deco: "select"}, {Deco: "omit"}, {Deco: "table"}, {Deco: "scopes"},
 		{Deco: "session_pu"}, {Deco: "session_misc"}, {Deco: "session_plain"},
+		{Deco: "offset"}, {Deco: "distinct"}, {Deco: "group"}, {Deco: "joins_raw"}, {Deco: "returning"}, {Deco: "locking"},
+		{Deco: "with_context"}, {Deco: "set"}, {Deco: "scope_empty_where"},
 	}
 }
 
@@ -340,6 +370,15 @@ func main() {
 	out := lib.NewOut(a.Out, "C09")
 	out.PerFile = 300
 	add := func(kind string, in Input) {
+		if in.Target == "table_only" {
+			// RETURNING into a destination that is not a model value is outside this property
+			// (gorm scans into Statement.ReflectValue.Addr(), which a map value does not have)
+			for _, s := range in.Steps {
+				if s.Deco == "returning" {
+					return
+				}
+			}
+		}
 		o := e.run(in)
 		eff := in.PK != 0
 		for _, s := range in.Steps {
@@ -409,6 +448,9 @@ func main() {
 							continue
 						}
 						add("enum", Input{Soft: soft, Allow: al, Finisher: f, PK: pk, Steps: ch})
+						if f == "delete" && len(ch) > 0 && ch[len(ch)-1].Call != nil && ch[len(ch)-1].Call.Kind == "where" {
+							add("enum", Input{Soft: soft, Allow: al, Finisher: f, PK: pk, Steps: ch, InlineLast: true})
+						}
 						// read-then-write on one chain handle is documented misuse once a statement is
 						// actually built from it (the SELECT's FROM clause stays); it is generated only
 						// where the write must be rejected before anything is built
@@ -469,6 +511,9 @@ func main() {
 			k := lib.Pick(r, []string{"where", "where", "or", "not"})
 			u := g.GenUnit(1, r.Bool(), true)
 			in.Steps = append(in.Steps, Step{Call: &whr.Call{Kind: k, Unit: u}})
+		}
+		if in.Finisher == "delete" && in.Target == "" && r.Bool() {
+			in.InlineLast = true // takes effect when the last step is a Where call
 		}
 		add("main", in)
 	}
